@@ -206,6 +206,47 @@ func c16ManyLogs(run *ev.Run, u *uni.U, gen *wh.CPGen, store string, setup func(
 	}
 }
 
+// c16ReducedConfig: two logs hold a checkpoint; the witness is started again on
+// the same store with a configuration that no longer names one of them. What
+// the witness holds is what the store holds: the log list still names both and
+// both checkpoints are served byte-identical (raw GET and bundled client).
+func c16ReducedConfig(run *ev.Run, u *uni.U, gen *wh.CPGen, store string, setup func(*wh.Env)) {
+	la := wh.LogCfg{Origin: "verif.example/reduced/kept", Key: u.K1}
+	lb := wh.LogCfg{Origin: "verif.example/reduced/dropped", Key: u.K2}
+	e := wh.NewEnv(u, wh.Config{Store: store, Logs: []wh.LogCfg{la, lb}})
+	defer e.Close()
+	want := map[string]string{}
+	for _, l := range []wh.LogCfg{la, lb} {
+		cp, meta := gen.Get(l, u.Main, 3, "plain")
+		if out := e.Do(wh.Req{LogID: l.ID(), CP: cp, Meta: meta}); out.Class != wh.OK {
+			return // first use refused: C08/C09's subject
+		}
+		want[l.ID()] = string(e.Stored(l.ID()))
+	}
+	e.RestartWithout(lb.ID())
+	setup(e)
+	router := e.X["router"].(http.Handler)
+	cl := e.X["client:"].(whttp.Witness)
+	rep := map[string]any{"kind": "reduced-config", "store": store}
+	code, body, _ := c16Get(router, "/witness/v0/logs")
+	var list []string
+	_ = json.Unmarshal([]byte(body), &list)
+	sort.Strings(list)
+	ids := []string{la.ID(), lb.ID()}
+	sort.Strings(ids)
+	if code != 200 || strings.Join(list, ",") != strings.Join(ids, ",") {
+		run.Report("log-list-content reduced-config store="+store, fmt.Sprintf("%s store: restarted with a configuration that dropped one of two logs that hold a checkpoint, the log list is %d %v, want both logs", store, code, list), rep)
+	}
+	for _, l := range []wh.LogCfg{la, lb} {
+		code, body, _ := c16Get(router, "/witness/v0/logs/"+l.ID()+"/checkpoint")
+		got, err := cl.GetLatestCheckpoint(context.Background(), l.ID())
+		run.Add("reduced_config_reads", 1)
+		if code != 200 || body != want[l.ID()] || err != nil || string(got) != want[l.ID()] {
+			run.Report(fmt.Sprintf("get-checkpoint reduced-config status=%d", code), fmt.Sprintf("%s store: the witness holds a cosigned checkpoint of %s (the log list names it); restarted with a configuration %s, GET answers %d (bytes exact: %v), the bundled client err=%v", store, l.Origin, map[bool]string{true: "that no longer names it", false: "that still names it"}[l.ID() == lb.ID()], code, body == want[l.ID()], err), rep)
+		}
+	}
+}
+
 // c16ReadSoak: reads that add up - 300 rounds of {a log that holds nothing, an
 // unknown ID, a log that holds a checkpoint, the log list} on one server; the
 // answers of the last round are the answers of the first.
@@ -375,11 +416,14 @@ func c16(tier string) int {
 		c16OddIDs(run, e, logs)
 		c16ManyLogs(run, u, gen, store, setup)
 		c16ReadSoak(run, u, gen, store, setup)
+		c16ReducedConfig(run, u, gen, store, setup)
 		e.Close()
 	}
 	// Fault leg: reads under storage faults - never wrong bytes, never 'not
 	// found' for a log that holds a checkpoint.
 	runFaults(run, "C16", tier, false)
+	// Upgrade leg: what an earlier release stored is served.
+	legacyDBLeg(run, "C16")
 	// Concurrent leg: reads overlapping an update on a freshly restarted witness.
 	c05Concurrent(run, "C16", tier)
 	for _, k := range []string{"stored->200", "empty->404"} {
